@@ -26,7 +26,7 @@ def nav_real(nnx, obj, path):
     elif isinstance(obj, c03.NT):
       obj = obj[slot - 1]
     elif isinstance(obj, dict):
-      obj = obj[('x', 'y')[slot - 1]]
+      obj = obj[((2, 10) if (2 in obj or 10 in obj) else ('x', 'y'))[slot - 1]]
     else:
       obj = obj[slot - 1]
   return obj
@@ -88,7 +88,7 @@ def canon_model_multi(heap, roots):
       idx[v] = len(idx)
       i = idx[v]
       return (k, i, tuple((K[k][s], rec(o['s'][s])) for s in range(2) if o['s'][s] != 0))
-    if k == 'D':
+    if k in ('D', 'DI'):
       return ('D', tuple((K[k][s], rec(o['s'][s])) for s in range(2) if o['s'][s] != 0))
     if k == 'NT':
       return ('NT', (('b', rec(o['s'][1])), ('w', rec(o['s'][0]))))
